@@ -138,7 +138,12 @@ func TestLargePackages(t *testing.T) {
 		}
 		c.Size = rapid.OneOf(rapid.IntRange(60000, 70000), rapid.IntRange(1000, 300000), rapid.SampledFrom([]int{65535, 65536, 66528, 66529, 131072, 200000})).Draw(rt, "size")
 		if vh.Thorough() && rapid.IntRange(0, 9).Draw(rt, "huge") == 0 {
-			c.Size = rapid.IntRange(300000, 3000000).Draw(rt, "hugesize")
+			// (every packet makes the channel parse the package from its start again: the cost
+			// is quadratic in the number of packets)
+			c.Size = rapid.IntRange(300000, 1000000).Draw(rt, "hugesize")
+			if c.Body < 504 {
+				c.Body = 504
+			}
 		}
 		return c
 	}
